@@ -373,7 +373,7 @@ def gen_object(rng, n_enums, big=False):
         return {"kind": "pp", "value": rng.choice(PP_VALUES), "fmt_json": rng.random() < 0.4,
                 "module_pp": rng.random() < 0.3}
     if r < 0.57:
-        return {"kind": rng.choice(["userbox", "usernote"]),
+        return {"kind": rng.choice(["userbox", "usernote"]), "keep_lines": rng.random() < 0.4,
                 "items": [rng.choice(["a", "bc", 1, 2.5, "", "ü", True, None, "long " * 5]) for _ in range(rng.randint(0, 4))]}
     if r < 0.60:
         return {"kind": "ppwrap", "value": rng.choice(PP_VALUES)}
@@ -945,7 +945,8 @@ def _line_with_format_probe(w, t, i, line):
                 raise Violation("O2", "formatted-line-layout-differs-from-plain",
                                 f"format(line, {spec!r}) gives {sgr.strip(got)!r}, the plain line gives {format(plain, spec)!r}")
     text = rw.ro.line_to_str(line)
-    if t.mode.get("edit_lines") and hasattr(line, "chunks"):
+    if t.mode.get("edit_lines") and hasattr(line, "chunks") and not t.r.built.spec.get("keep_lines"):
+        # (not the lines of a user's pane that keeps and re-yields its own line objects: those stay the pane's)
         # ... and then goes on working with the line object it was handed (appends a mark, in place): a line is the
         # consumer's own object once it has been yielded, later lines must not know
         line += " <seen>"
